@@ -24,6 +24,10 @@ def main():
     mod = importlib.util.module_from_spec(spec)
     sys.path.insert(0, os.path.join(core.VERIF, 'checks'))
     spec.loader.exec_module(mod)
+    # runs against a tree other than /repo regenerate coq/Gen from that tree: keep them apart from normal runs
+    import fcntl
+    lockf = open(os.path.join(core.VERIF, '.repo.lock'), 'w')
+    fcntl.flock(lockf, fcntl.LOCK_EX if os.path.realpath(core.REPO) != '/repo' else fcntl.LOCK_SH)
     ctx = core.Ctx(a.pid, tier, seed, replay=a.replay)
     try:
         if a.replay:
@@ -32,7 +36,11 @@ def main():
             if not hasattr(mod, 'replay'):
                 print('replay not supported for %s' % a.pid)
                 return 2
-            return mod.replay(ctx, rp)
+            try:
+                return mod.replay(ctx, rp)
+            finally:
+                import shutil
+                shutil.rmtree(ctx.scratch, ignore_errors=True)
         mod.run(ctx)
     except Exception:
         # a crash of the machinery is not a verdict about the driver: report it loudly, fail the run
